@@ -127,6 +127,10 @@ def check_one(o, styles, rnd):
         if p.status != 'acc':
             probs.append(('rejected-valid', {'text': text, 'expected_tree': o['r'], 'style': st}))
             continue
+        if st == 'qual':
+            # qualified references: same structure once the qualifications are taken off
+            p.expr = P.unqual(p.expr)
+            p.rpn = [P.unqual(x) for x in p.rpn] if p.rpn else p.rpn
         if not run:
             if p.expr != o['r']:
                 probs.append(('render', {'text': text, 'expected': o['r'], 'observed': p.expr, 'style': st}))
@@ -176,6 +180,8 @@ def _shard(args):
             styles = ['min', 'spaced'] if thorough else ['min']
         if rnd.random() < 0.01:
             styles = styles + [rnd.choice(['tab', 'nl'])]
+        if any(t in P.REFS for t in o['s']) and (thorough or rnd.random() < 0.5):
+            styles = styles + ['qual']
         probs, n = check_one(o, styles, rnd)
         out.append((o['s'], o['g'], n, probs))
     return out
